@@ -409,6 +409,8 @@ def assign_stmt(draw, env, depth, allow_hybrid):
         inner_c = [("var", n) for n in locs]
         if lhs[0] == "var":
             inner_c += [("opnd", o) for o in env.dsts]
+        # read-write registers (Rx): their new value is what the outer assignment receives
+        inner_c += [("opnd", o) for o in env.rws if lhs[0] != "opnd" or getattr(lhs[1], "slot", None) != o.slot]
         if inner_c:
             lhs2 = draw(st.sampled_from(inner_c))
             rhs = draw(expr(env, max(depth - 1, 0), False))
@@ -416,7 +418,8 @@ def assign_stmt(draw, env, depth, allow_hybrid):
             if readable and draw(st.booleans()):
                 rhs = ("bin", draw(st.sampled_from(["+", "-", "^"])), draw(st.sampled_from(readable)), rhs)
             op2 = "="
-            if "compound_assign" in f and lhs2[0] == "var" and env.vars[lhs2[1]][1] >= 32 and draw(st.integers(0, 3)) == 0:
+            if "compound_assign" in f and (lhs2[0] == "opnd" and lhs2[1] in env.rws or
+                                           lhs2[0] == "var" and env.vars[lhs2[1]][1] >= 32) and draw(st.integers(0, 3)) == 0:
                 op2 = draw(st.sampled_from(["+=", "-=", "^=", "|=", "&="]))
             return ("expr", ("assign", "=", lhs, ("assign", op2, lhs2, rhs)))
     return ("expr", ("assign", "=", lhs, rhs_() if cmp_rhs else draw(expr(env, depth, allow_hybrid))))
